@@ -59,8 +59,10 @@ DoCrash == /\ UNCHANGED n /\ gh.dead = {}
            /\ \E t \in Threads : Crash(t, t)
 DoLinCrashed == (\E t \in Threads : LinCrashed(t)) /\ UNCHANGED n
 DoReap == Reap /\ UNCHANGED n
+\* a creation whose environment failed after it was visible is withdrawn (then it can only end with DoRetEnv)
+DoWithdraw == (\E t \in Threads \ gh.dead : Withdraw(t)) /\ UNCHANGED n
 
-MCNext == DoCall \/ DoLin \/ DoRet \/ DoQuiescent \/ DoRetEnv \/ DoCrash \/ DoLinCrashed \/ DoReap
+MCNext == DoCall \/ DoLin \/ DoRet \/ DoQuiescent \/ DoRetEnv \/ DoCrash \/ DoLinCrashed \/ DoReap \/ DoWithdraw
 MCSpec == MCInit /\ [][MCNext]_mvars
 
 \* a handle number is never in `users` twice
